@@ -72,11 +72,33 @@ def gen_program(rng, nops):
     return ops, shared or reassigned
 
 
+def gen_mode_program(rng):
+    """deep trees with mixed mode histories: train()/eval() on inner nodes and the root in any order, modules attached in
+    between; the flags of every node are observed after every call"""
+    n = rng.randint(3, 6)
+    ops = ['mod new']
+    for m in range(1, n):
+        ops += ['mod new', f'mod set {m} {rng.pick(NAMES)} m{m - 1 if rng.chance(.7) else rng.randrange(m)}']
+    nm = n
+    for _ in range(rng.randint(4, 10)):
+        r = rng.random()
+        if r < 0.15:
+            ops += ['mod new', f'mod set {rng.randrange(nm)} {rng.pick(NAMES)}x m{nm}']   # a fresh (training) module under any node
+            nm += 1
+        else:
+            ops.append(f'mod {rng.pick(["train", "eval"])} {rng.pick([nm - 1, n - 1, rng.randrange(nm), rng.randrange(nm)])}')
+        ops.append('mod flags')
+    return ops, True
+
+
 def cases(rng, tier):
     out = []
     n = 150 if tier == 'quick' else 4000
     for i in range(n):
         ops, nt = gen_program(rng, rng.randint(3, 25 if tier == 'quick' else 40))
+        out.append({'lines': ops, 'nt': nt, 'desc': ' ; '.join(ops[:40])})
+    for i in range(n // 3):
+        ops, nt = gen_mode_program(rng)
         out.append({'lines': ops, 'nt': nt, 'desc': ' ; '.join(ops[:40])})
     # corpus: minimal programs for each past defect
     corpus = [
